@@ -27,12 +27,13 @@ the correspondence run separately. -/
 namespace OjgVerif.C16
 open OjgVerif OjgVerif.Reflect
 
-/-- the round trip through the reference tree with the ideal registry -/
-theorem recompose_inverts_reference (o : Opts) (hstrict : o.strict = false) (tf vf : Nat) (htf : 0 < tf) (hvf : vf ≤ 256)
-    (t : GoType) (v : GoVal) (hok : rtOK o vf t v = true) :
+/-- the round trip through the reference tree with the ideal registry; `strict` (`oj.Marshal`) is allowed
+unless the top-level type is `[]any` (whose nil value Marshal writes as null) -/
+theorem recompose_inverts_reference (o : Opts) (tf vf : Nat) (htf : 0 < tf) (hvf : vf ≤ 256)
+    (t : GoType) (v : GoVal) (hs : (o.strict && isSliceIface t) = false) (hok : rtOK o vf t v = true) :
     ∃ v', recomposePure o.createKey t (refEncode o tf vf t v) = .ok v' ∧ norm v' = norm v := by
   obtain ⟨tf', rfl⟩ : ∃ tf', tf = tf' + 1 := ⟨tf - 1, by omega⟩
-  obtain ⟨v', hn, hrec⟩ := rt_core o hstrict tf' vf vf (Nat.le_refl _) 256 hvf true t v hok
+  obtain ⟨v', hn, hrec⟩ := rt_core o tf' vf vf (Nat.le_refl _) 256 hvf true t v (by simpa using hs) hok
   refine ⟨v', ?_, hn⟩
   unfold recomposePure refEncode
   have := hrec [] none 1 (Or.inl rfl)
@@ -50,7 +51,7 @@ theorem recompose_inverts_decompose_partial (o : Opts) (hn : o.omitNil = false) 
     (hok : rtOK o vf t v = true) :
     ∃ v', recomposePure o.createKey t (encode .alt Dev.current o tf vf t v) = .ok v' ∧ norm v' = norm v := by
   rw [C15.untriggered_current_eq_reference .alt o hn ho tf vf t v hU]
-  exact recompose_inverts_reference o hstrict tf vf htf hvf t v hok
+  exact recompose_inverts_reference o tf vf htf hvf t v (by simp [hstrict]) hok
 
 /-- the same on a REAL recomposer (the model of `alt.Recomposer` as it is now) after ANY history of
 registrations and earlier recompositions, for target types without `interface{}` slot -/
@@ -62,6 +63,75 @@ theorem recompose_inverts_decompose_any_history (o : Opts) (hn : o.omitNil = fal
       norm v' = norm v := by
   rw [recompose_current_eq_pure o.createKey h t hni]
   exact recompose_inverts_decompose_partial o hn ho hstrict tf vf htf hvf t v hU hok
+
+/-- **C16, first sentence, Decompose/Recompose, for ALL option sets of the model** (`OmitNil`,
+`OmitEmpty` off): the side condition is read under `effOpts o` — the options as the code reads them:
+with `UseTags` a field without a tag name is written under its exact name whatever `KeyExact` says
+(finding `C15-usetags-keyexact`) — and then NO run of `alt.Decompose` as it is now meets a deviation
+(`untriggered_alt_eff`), so the only hypothesis left is `rtOK (effOpts o)`. -/
+theorem recompose_inverts_decompose (o : Opts) (hn : o.omitNil = false) (ho : o.omitEmpty = false)
+    (hstrict : o.strict = false) (tf vf : Nat) (htf : 0 < tf) (hvf : vf ≤ 256) (t : GoType) (v : GoVal)
+    (hok : rtOK (effOpts o) vf t v = true) :
+    ∃ v', recomposePure o.createKey t (encode .alt Dev.current o tf vf t v) = .ok v' ∧ norm v' = norm v := by
+  have e1 : (effOpts o).omitNil = false := by unfold effOpts; split <;> simpa using hn
+  have e2 : (effOpts o).omitEmpty = false := by unfold effOpts; split <;> simpa using ho
+  have e3 : (effOpts o).strict = false := by unfold effOpts; split <;> simpa using hstrict
+  have e4 : (effOpts o).createKey = o.createKey := by unfold effOpts; split <;> rfl
+  rw [← encode_alt_eff, ← e4]
+  exact recompose_inverts_decompose_partial (effOpts o) e1 e2 e3 tf vf htf hvf t v
+    (untriggered_alt_eff o tf _ vf true false t v) hok
+
+/-- the same on the model of the real recomposer after any history (types without `interface{}` slot) -/
+theorem recompose_inverts_decompose_history (o : Opts) (hn : o.omitNil = false) (ho : o.omitEmpty = false)
+    (hstrict : o.strict = false) (tf vf : Nat) (htf : 0 < tf) (hvf : vf ≤ 256) (t : GoType) (v : GoVal)
+    (hok : rtOK (effOpts o) vf t v = true) (hni : noIface t = true) (h : List Event) :
+    ∃ v', recompose false o.createKey (regAfter false o.createKey h) t (encode .alt Dev.current o tf vf t v) = .ok v' ∧
+      norm v' = norm v := by
+  rw [recompose_current_eq_pure o.createKey h t hni]
+  exact recompose_inverts_decompose o hn ho hstrict tf vf htf hvf t v hok
+
+/-! ## the Marshal / Unmarshal route
+
+`oj.Unmarshal` is `Parser.Parse` followed by `Recompose` (oj/oj.go). What is proved here is the TREE
+level: the tree `oj.Marshal(v, o)` describes (`encode .oj Dev.current`, `strict` on) recomposes to `v`.
+The text layer is a hypothesis of `unmarshal_inverts_marshal_of_text_layer` (`parse (write tree) = tree`:
+the content of C04_oj — `parseDoc (written text) = norm tree` — and C02 — the parser returns the tree of
+the text — which are about other tree types and are NOT connected formally here). One more gap, said
+plainly: `oj.Unmarshal` parses with `ForceFloat` (every number arrives as a float64) and the model of
+`recomp` has no case for a float datum in an integer slot (`scalarSlot` answers `outside`): the theorem
+speaks about the tree of the PLAIN parser (integers stay integers), as the correspondence run does;
+the `ForceFloat` conversion of integer slots is only run (route `oj` of the harness). -/
+
+/-- the tree `oj.Marshal(v, o)` / `oj.JSON(v, o)` describes recomposes to `v`, on runs of the writer that
+meet none of the live C15 exclusions (`untriggered .oj`: `UseTags` without `KeyExact`, a `[]byte`
+outside the type switch) -/
+theorem recompose_inverts_marshal_tree (o : Opts) (hn : o.omitNil = false) (ho : o.omitEmpty = false)
+    (tf vf : Nat) (htf : 0 < tf) (hvf : vf ≤ 256) (t : GoType) (v : GoVal)
+    (hs : (o.strict && isSliceIface t) = false)
+    (hU : untriggered .oj Dev.current o tf (planFixed o tf) vf true false t v = true)
+    (hok : rtOK o vf t v = true) :
+    ∃ v', recomposePure o.createKey t (encode .oj Dev.current o tf vf t v) = .ok v' ∧ norm v' = norm v := by
+  rw [C15.untriggered_current_eq_reference .oj o hn ho tf vf t v hU]
+  exact recompose_inverts_reference o tf vf htf hvf t v hs hok
+
+/-- `oj.Unmarshal` as the composition the source has: parse, then recompose (ideal registry) -/
+def unmarshalVia (parse : Bytes → Option JV) (ck : Bytes) (t : GoType) (text : Bytes) : Option Slot :=
+  (parse text).map (recomposePure ck t)
+
+/-- **Unmarshal ∘ Marshal, with the text layer as a hypothesis**: for any writer/parser pair that
+reads back the tree it wrote (for THIS tree), unmarshalling the marshalled text gives `v` back up to
+nil ~ empty. -/
+theorem unmarshal_inverts_marshal_of_text_layer (parse : Bytes → Option JV) (write : JV → Bytes)
+    (o : Opts) (hn : o.omitNil = false) (ho : o.omitEmpty = false)
+    (tf vf : Nat) (htf : 0 < tf) (hvf : vf ≤ 256) (t : GoType) (v : GoVal)
+    (hs : (o.strict && isSliceIface t) = false)
+    (hU : untriggered .oj Dev.current o tf (planFixed o tf) vf true false t v = true)
+    (hok : rtOK o vf t v = true)
+    (htext : parse (write (encode .oj Dev.current o tf vf t v)) = some (encode .oj Dev.current o tf vf t v)) :
+    ∃ v', unmarshalVia parse o.createKey t (write (encode .oj Dev.current o tf vf t v)) = some (.ok v') ∧
+      norm v' = norm v := by
+  obtain ⟨v', h1, h2⟩ := recompose_inverts_marshal_tree o hn ho tf vf htf hvf t v hs hU hok
+  exact ⟨v', by simp [unmarshalVia, htext, h1], h2⟩
 
 /-! ### the hypotheses are satisfiable: a struct with tags, omitempty, a pointer to a struct, slices,
 a map, an array, an unexported field -/
@@ -87,6 +157,71 @@ def rtOptsLow : Opts := ⟨false, false, false, false, false, false, false, fals
 example : rtOK rtOpts 8 rtT rtV = true ∧ rtOK rtOptsLow 8 rtT rtV = true ∧ noIface rtT = true ∧
     untriggered .alt Dev.current rtOpts 4 (planFixed rtOpts 4) 8 true false rtT rtV = true ∧
     untriggered .alt Dev.current rtOptsLow 4 (planFixed rtOptsLow 4) 8 true false rtT rtV = true := by
+  decide +kernel
+
+/-- `oj.Marshal` under the Go-compatible naming: strict on -/
+def rtOptsMarshal : Opts := ⟨true, true, false, false, false, false, false, true, 0, []⟩
+
+example : rtOK rtOptsMarshal 8 rtT rtV = true ∧ (rtOptsMarshal.strict && isSliceIface rtT) = false ∧
+    untriggered .oj Dev.current rtOptsMarshal 4 (planFixed rtOptsMarshal 4) 8 true false rtT rtV = true := by
+  decide +kernel
+
+/-- the text-layer hypothesis is satisfiable (trivially, by an injective writer with its inverse) -/
+example : ∃ (parse : Bytes → Option JV) (write : JV → Bytes),
+    parse (write (encode .oj Dev.current rtOptsMarshal 4 8 rtT rtV)) = some (encode .oj Dev.current rtOptsMarshal 4 8 rtT rtV) :=
+  ⟨fun _ => some (encode .oj Dev.current rtOptsMarshal 4 8 rtT rtV), fun _ => [], rfl⟩
+
+/-- `UseTags` without `KeyExact` (outside `recompose_inverts_decompose_partial`, inside
+`recompose_inverts_decompose`) -/
+def rtOptsTags : Opts := ⟨true, false, false, false, false, false, false, false, 0, [94]⟩
+
+example : rtOK (effOpts rtOptsTags) 8 rtT rtV = true ∧
+    untriggered .alt Dev.current rtOptsTags 4 (planFixed rtOptsTags 4) 8 true false rtT rtV = false := by
+  decide +kernel
+
+/-- a `[]byte` field comes back under `BytesAsArray` only (finding `C16-bytes-text`) -/
+example :
+    rtOK ⟨false, false, false, false, false, false, false, false, Gen.Root.BytesAsArray_int.toNat, []⟩ 4
+      (.struct [] [] [(C15.fld "Raw", .bytes), (C15.fld "P", .ptr .bytes)]) (.struct [.bytes [1, 2, 255], .nilPtr]) = true ∧
+    rtOK rtOptsLow 4 (.struct [] [] [(C15.fld "Raw", .bytes)]) (.struct [.bytes [1]]) = false := by
+  decide +kernel
+
+/-! ### the order of the decoder's lookups is part of the statement
+
+`fieldDatum` (the model of recomp's struct case) tries the index key — the json tag name — FIRST and the
+spellings of the Go field name only when the tree has no member under it; `structOK` is stated over the
+names the decoder tries (`triedKeys`), in that order. -/
+
+/-- the source has the lookups of the model, in the model's order (regenerated by
+`tools/extract/reflect.go`; on a source that tries the Go-name spellings first, or moves the lookups
+into a helper — seeded C16-m8 — the regenerated list differs and this theorem fails) -/
+theorem lookup_order_in_source :
+    Gen.Reflect.altRecompMemberLookups =
+      ["vm[k]", "vm[sf.Name]", "name[0] |= 0x20", "vm[string(name)]", "vm[strings.ToLower(string(name))]"] := by
+  decide +kernel
+
+/-- `struct { Kind string `json:"type"`; Type int `json:"kind"` }`: each field's tag name spells the
+OTHER field's Go name -/
+def swapT : GoType := .struct [] [] [(C15.fld "Kind" "type", .str), (C15.fld "Type" "kind", .int 0)]
+def swapV : GoVal := .struct [.str [120], .int 7]
+
+/-- with tags in use the type is INSIDE the theorem — because the tag name is tried first; the model
+gives the fields back unswapped; had `fieldDatum` tried the Go-name spellings first the first lookup
+for `Kind` ("Kind", "kind") would hit the member of `Type` -/
+example : rtOK (effOpts rtOpts) 4 swapT swapV = true ∧
+    slotIs (recomposePure rtOpts.createKey swapT (encode .alt Dev.current rtOpts 4 4 swapT swapV)) swapV = true ∧
+    (fieldDatum [("kind".toUTF8.toList, .int 7), ("type".toUTF8.toList, .str [120])] "type".toUTF8.toList
+        ⟨"Kind".toUTF8.toList, [0], "type".toUTF8.toList⟩).map JV.render = some "S(78)" ∧
+    (jvLookup [("kind".toUTF8.toList, JV.int 7), ("type".toUTF8.toList, .str [120])]
+        (lowerFirst "Kind".toUTF8.toList)).map JV.render = some "I(7)" := by
+  decide +kernel
+
+/-- the same names with `omitempty` on `Kind` are OUTSIDE: an empty `Kind` is not written, the lookups
+fall through to "kind" and find the member of `Type`; and without tags (the lower-case style) the
+type is outside too — the encoder writes `Kind` under "kind", the decoder files it under "type" -/
+example :
+    structOK (effOpts rtOpts) [(C15.fld "Kind" "type,omitempty", .str), (C15.fld "Type" "kind", .int 0)] = false ∧
+    rtOK rtOptsLow 4 swapT swapV = false := by
   decide +kernel
 
 /-- the side condition does exclude something: two fields that the lower-case style maps to one key -/
